@@ -240,6 +240,18 @@ for _k, _c in EXTRA9.items():
     c0, n0, t0 = CLAIMS[_k]
     CLAIMS[_k] = (c0 + _c, n0, t0)
 
+EXTRA10 = {
+ "C03": "; the EIP-712 sign-doc decoders and the Web3Tx verifier are checked for covering the bytes the decoding drops (three recorded findings)",
+ "C06": "; the receivers of the message router are tabled and, while a dispatcher off the ante route is wired, MsgExec is not grantable; both Cosmos routes bar the same types unconditionally",
+ "C12": "; InitGenesis creates the module account and compares its coins with the imported shares",
+ "C18": "; wire integers are nil-tested before use in the stateless validation; the indexer recomputes the hash",
+ "C19": "; the zero-height export removes hand-jailed validators from the power index",
+ "C20": "; the capability memory store is rebuilt after the state is loaded",
+}
+for _k, _c in EXTRA10.items():
+    c0, n0, t0 = CLAIMS[_k]
+    CLAIMS[_k] = (c0 + _c, n0, t0)
+
 BUILT = json.load(open('/verif/tools/built.json'))
 
 m = {"version": 1,
